@@ -24,7 +24,7 @@ type Case struct {
 	IntTyped bool        `json:"int_typed"`
 	NumType  string      `json:"num_type,omitempty"` // Go type of every number when int_typed (default int64)
 	Exotic   bool        `json:"exotic,omitempty"`   // oracle only: fractional floats and []byte leaves (outside the model)
-	Shared   bool        `json:"shared"` // old and new share unchanged sub-values by pointer
+	Shared   bool        `json:"shared"`             // old and new share unchanged sub-values by pointer
 	Origin   string      `json:"origin"`
 }
 
